@@ -215,3 +215,14 @@ func (m *Model) visibleKeys() []int {
 }
 
 func causeStr(c otter.DeletionCause) string { return c.String() }
+
+// sortedKeys returns the keys of an int-keyed map in ascending order: harness code never depends
+// on Go's randomised map iteration order (it would break replay).
+func sortedKeys[V any](m map[int]V) []int {
+	ks := make([]int, 0, len(m))
+	for k := range m {
+		ks = append(ks, k)
+	}
+	sort.Ints(ks)
+	return ks
+}
